@@ -1,7 +1,294 @@
-/* proj.c - projection of the library's query API into JSON (abstraction function) */
+/* proj.c - projection of the library's public query API into JSON (the abstraction function of DESIGN.md section 4).
+ *
+ * Only public getters are used.  Every field of every result struct is printed; booleans are printed as the raw
+ * byte they hold (so a field that was never written shows the allocator's fill pattern instead of 0/1).
+ * Every result is passed to its documented free function exactly once.
+ */
 #define _GNU_SOURCE
 #include <string.h>
 #include <stdlib.h>
 #include "vdrv.h"
-void proj_all(void) { fputs("null", vout); }
-void proj_get(const char *fn, int n, char **tok) { (void) fn; (void) n; (void) tok; fputs("null", vout); }
+
+static unsigned B(const bool *p) { unsigned char c; memcpy(&c, p, 1); return c; }
+#define BV(x) B(&(x))
+
+static void p_sid(const char *s) { if (s == NULL) fputs("\"<null>\"", vout); else out_str(s); }
+
+static void p_board_acc(const t_bidib_board_accessory_state_data *d) {
+	fputs("\"sid\":", vout); p_sid(d->state_id);
+	fprintf(vout, ",\"val\":%u,\"exec\":%d,\"wait\":%u", d->state_value, (int) d->execution_state, d->wait_details);
+}
+static void p_dcc_acc(const t_bidib_dcc_accessory_state_data *d) {
+	fputs("\"sid\":", vout); p_sid(d->state_id);
+	fprintf(vout, ",\"val\":%u,\"coil\":%u,\"oct\":%u,\"ack\":%d,\"tu\":%d,\"st\":%u", d->state_value, BV(d->coil_on),
+	        BV(d->output_controls_timing), (int) d->ack, (int) d->time_unit, d->switch_time);
+}
+static void p_periph(const t_bidib_peripheral_state_data *d) {
+	fputs("\"sid\":", vout); p_sid(d->state_id);
+	fprintf(vout, ",\"val\":%u,\"tu\":%d,\"wait\":%u", d->state_value, (int) d->time_unit, d->wait);
+}
+static void p_pc(const t_bidib_power_consumption *p) {
+	fprintf(vout, "\"pk\":%u,\"po\":%u,\"pc\":%u", BV(p->known), BV(p->overcurrent), p->current);
+}
+static void p_segment(const t_bidib_segment_state_data *d) {
+	fprintf(vout, "\"occ\":%u,\"cv\":%u,\"fr\":%u,\"ns\":%u,", BV(d->occupied), BV(d->confidence.conf_void),
+	        BV(d->confidence.freeze), BV(d->confidence.nosignal));
+	p_pc(&d->power_consumption);
+	fputs(",\"addrs\":[", vout);
+	for (size_t i = 0; i < d->dcc_address_cnt; i++)
+		fprintf(vout, "%s[%u,%u,%u]", i ? "," : "", d->dcc_addresses[i].addrl, d->dcc_addresses[i].addrh, d->dcc_addresses[i].type);
+	fputc(']', vout);
+}
+static void p_reverser(const t_bidib_reverser_state_data *d) {
+	fputs("\"sid\":", vout); p_sid(d->state_id);
+	fprintf(vout, ",\"val\":%d", (int) d->state_value);
+}
+static void p_train(const t_bidib_train_state_data *d) {
+	fprintf(vout, "\"on\":%u,\"ori\":%d,\"spd\":%d,\"fwd\":%u,\"ack\":%d,\"kmh\":%d,\"per\":[", BV(d->on_track), (int) d->orientation,
+	        d->set_speed_step, BV(d->set_is_forwards), (int) d->ack, d->detected_kmh_speed);
+	for (size_t i = 0; i < d->peripheral_cnt; i++) {
+		fputs(i ? ",{\"id\":" : "{\"id\":", vout); p_sid(d->peripherals[i].id);
+		fprintf(vout, ",\"st\":%u}", d->peripherals[i].state);
+	}
+	const t_bidib_train_decoder_state *s = &d->decoder_state;
+	fprintf(vout, "],\"sqk\":%u,\"sq\":%u,\"tk\":%u,\"t\":%d,\"ek\":%u,\"en\":%u,\"c2k\":%u,\"c2\":%u,\"c3k\":%u,\"c3\":%u",
+	        BV(s->signal_quality_known), s->signal_quality, BV(s->temp_known), (int) s->temp_celsius,
+	        BV(s->energy_storage_known), s->energy_storage, BV(s->container2_storage_known), s->container2_storage,
+	        BV(s->container3_storage_known), s->container3_storage);
+}
+static void p_booster(const t_bidib_booster_state_data *d) {
+	fprintf(vout, "\"ps\":%d,\"pss\":%d,", (int) d->power_state, (int) d->power_state_simple);
+	p_pc(&d->power_consumption);
+	fprintf(vout, ",\"vk\":%u,\"v\":%u,\"tk\":%u,\"t\":%d", BV(d->voltage_known), d->voltage, BV(d->temp_known), (int) d->temp_celsius);
+}
+
+static void p_idlist(const char *name, t_bidib_id_list_query q) {
+	fprintf(vout, "\"%s\":[", name);
+	for (size_t i = 0; i < q.length; i++) { if (i) fputc(',', vout); p_sid(q.ids ? q.ids[i] : NULL); }
+	fputc(']', vout);
+	bidib_free_id_list_query(q);
+}
+
+#define OPEN(name) fprintf(vout, "\"%s\":[", name)
+#define SEP(i) if (i) fputc(',', vout)
+
+/* the whole-track snapshot */
+static void snapshot(t_bidib_track_state *s) {
+	OPEN("pb"); for (size_t i = 0; i < s->points_board_count; i++) { SEP(i); fputs("{\"id\":", vout); p_sid(s->points_board[i].id); fputc(',', vout); p_board_acc(&s->points_board[i].data); fputc('}', vout); } fputs("],", vout);
+	OPEN("sb"); for (size_t i = 0; i < s->signals_board_count; i++) { SEP(i); fputs("{\"id\":", vout); p_sid(s->signals_board[i].id); fputc(',', vout); p_board_acc(&s->signals_board[i].data); fputc('}', vout); } fputs("],", vout);
+	OPEN("pd"); for (size_t i = 0; i < s->points_dcc_count; i++) { SEP(i); fputs("{\"id\":", vout); p_sid(s->points_dcc[i].id); fputc(',', vout); p_dcc_acc(&s->points_dcc[i].data); fputc('}', vout); } fputs("],", vout);
+	OPEN("sd"); for (size_t i = 0; i < s->signals_dcc_count; i++) { SEP(i); fputs("{\"id\":", vout); p_sid(s->signals_dcc[i].id); fputc(',', vout); p_dcc_acc(&s->signals_dcc[i].data); fputc('}', vout); } fputs("],", vout);
+	OPEN("per"); for (size_t i = 0; i < s->peripherals_count; i++) { SEP(i); fputs("{\"id\":", vout); p_sid(s->peripherals[i].id); fputc(',', vout); p_periph(&s->peripherals[i].data); fputc('}', vout); } fputs("],", vout);
+	OPEN("seg"); for (size_t i = 0; i < s->segments_count; i++) { SEP(i); fputs("{\"id\":", vout); p_sid(s->segments[i].id); fputc(',', vout); p_segment(&s->segments[i].data); fputc('}', vout); } fputs("],", vout);
+	OPEN("rev"); for (size_t i = 0; i < s->reversers_count; i++) { SEP(i); fputs("{\"id\":", vout); p_sid(s->reversers[i].id); fputc(',', vout); p_reverser(&s->reversers[i].data); fputc('}', vout); } fputs("],", vout);
+	OPEN("trn"); for (size_t i = 0; i < s->trains_count; i++) { SEP(i); fputs("{\"id\":", vout); p_sid(s->trains[i].id); fputc(',', vout); p_train(&s->trains[i].data); fputc('}', vout); } fputs("],", vout);
+	OPEN("bst"); for (size_t i = 0; i < s->booster_count; i++) { SEP(i); fputs("{\"id\":", vout); p_sid(s->booster[i].id); fputc(',', vout); p_booster(&s->booster[i].data); fputc('}', vout); } fputs("],", vout);
+	OPEN("to"); for (size_t i = 0; i < s->track_outputs_count; i++) { SEP(i); fputs("{\"id\":", vout); p_sid(s->track_outputs[i].id); fprintf(vout, ",\"cs\":%d}", (int) s->track_outputs[i].cs_state); } fputs("]", vout);
+}
+
+/* boards: id list + connectivity + address per board */
+static void boards(void) {
+	t_bidib_id_list_query q = bidib_get_boards();
+	OPEN("boards");
+	for (size_t i = 0; i < q.length; i++) {
+		SEP(i);
+		fputs("{\"id\":", vout); p_sid(q.ids[i]);
+		t_bidib_node_address_query a = bidib_get_nodeaddr(q.ids[i]);
+		fprintf(vout, ",\"conn\":%u,\"kc\":%u", (unsigned) bidib_get_board_connected(q.ids[i]), BV(a.known_and_connected));
+		if (a.known_and_connected) fprintf(vout, ",\"addr\":[%u,%u,%u]", a.address.top, a.address.sub, a.address.subsub);
+		else fputs(",\"addr\":[]", vout);
+		t_bidib_unique_id_query u = bidib_get_uniqueid(q.ids[i]);
+		if (u.known) fprintf(vout, ",\"uid\":[%u,%u,%u,%u,%u,%u,%u]", u.unique_id.class_id, u.unique_id.class_id_ext, u.unique_id.vendor_id,
+		                     u.unique_id.product_id1, u.unique_id.product_id2, u.unique_id.product_id3, u.unique_id.product_id4);
+		else fputs(",\"uid\":[]", vout);
+		fputc('}', vout);
+	}
+	fputs("]", vout);
+	bidib_free_id_list_query(q);
+}
+
+void proj_all(void) {
+	t_bidib_track_state s = bidib_get_state();
+	fputc('{', vout);
+	snapshot(&s);
+	fputc(',', vout);
+	boards();
+	/* derived train getters (C08): position / on-track / speed per train of the snapshot */
+	fputs(",\"tpos\":[", vout);
+	for (size_t i = 0; i < s.trains_count; i++) {
+		SEP(i);
+		const char *id = s.trains[i].id;
+		t_bidib_train_position_query p = bidib_get_train_position(id);
+		fputs("{\"id\":", vout); p_sid(id);
+		fprintf(vout, ",\"on\":%u,\"left\":%u,\"segs\":[", (unsigned) bidib_get_train_on_track(id), BV(p.orientation_is_left));
+		for (size_t j = 0; j < p.length; j++) { SEP(j); p_sid(p.segments[j]); }
+		t_bidib_train_speed_step_query ss = bidib_get_train_speed_step(id);
+		t_bidib_train_speed_kmh_query sk = bidib_get_train_speed_kmh(id);
+		fprintf(vout, "],\"ssk\":%u,\"ss\":%d,\"ssf\":%u,\"skk\":%u,\"sk\":%d}", BV(ss.known_and_avail), ss.speed_step, BV(ss.is_forwards),
+		        BV(sk.known_and_avail), sk.speed_kmh);
+		bidib_free_train_position_query(p);
+	}
+	fputs("],", vout);
+	p_idlist("ontrack", bidib_get_trains_on_track());
+	fputc('}', vout);
+	bidib_free_track_state(s);
+}
+
+/* every enumeration getter (C14 / C15): lists only */
+static void proj_lists(void) {
+	fputc('{', vout);
+	p_idlist("boards", bidib_get_boards()); fputc(',', vout);
+	p_idlist("boards_connected", bidib_get_boards_connected()); fputc(',', vout);
+	p_idlist("connected_points", bidib_get_connected_points()); fputc(',', vout);
+	p_idlist("connected_signals", bidib_get_connected_signals()); fputc(',', vout);
+	p_idlist("connected_peripherals", bidib_get_connected_peripherals()); fputc(',', vout);
+	p_idlist("connected_segments", bidib_get_connected_segments()); fputc(',', vout);
+	p_idlist("connected_reversers", bidib_get_connected_reversers()); fputc(',', vout);
+	p_idlist("connected_boosters", bidib_get_connected_boosters()); fputc(',', vout);
+	p_idlist("boosters", bidib_get_boosters()); fputc(',', vout);
+	p_idlist("track_outputs", bidib_get_track_outputs()); fputc(',', vout);
+	p_idlist("connected_track_outputs", bidib_get_connected_track_outputs()); fputc(',', vout);
+	p_idlist("trains", bidib_get_trains()); fputc(',', vout);
+	p_idlist("trains_on_track", bidib_get_trains_on_track());
+	/* per board */
+	t_bidib_id_list_query q = bidib_get_boards();
+	fputs(",\"perboard\":[", vout);
+	for (size_t i = 0; i < q.length; i++) {
+		SEP(i);
+		fputs("{\"id\":", vout); p_sid(q.ids[i]); fputc(',', vout);
+		p_idlist("points", bidib_get_board_points(q.ids[i])); fputc(',', vout);
+		p_idlist("signals", bidib_get_board_signals(q.ids[i])); fputc(',', vout);
+		p_idlist("peripherals", bidib_get_board_peripherals(q.ids[i])); fputc(',', vout);
+		p_idlist("segments", bidib_get_board_segments(q.ids[i])); fputc(',', vout);
+		p_idlist("reversers", bidib_get_board_reversers(q.ids[i]));
+		t_bidib_board_features_query f = bidib_get_board_features(q.ids[i]);
+		fputs(",\"features\":[", vout);
+		for (size_t j = 0; j < f.length; j++) fprintf(vout, "%s[%u,%u]", j ? "," : "", f.features[j].number, f.features[j].value);
+		fputs("]}", vout);
+		bidib_free_board_features_query(f);
+	}
+	fputs("]", vout);
+	bidib_free_id_list_query(q);
+	/* per train */
+	q = bidib_get_trains();
+	fputs(",\"pertrain\":[", vout);
+	for (size_t i = 0; i < q.length; i++) {
+		SEP(i);
+		fputs("{\"id\":", vout); p_sid(q.ids[i]); fputc(',', vout);
+		p_idlist("peripherals", bidib_get_train_peripherals(q.ids[i]));
+		t_bidib_dcc_address_query d = bidib_get_train_dcc_addr(q.ids[i]);
+		fprintf(vout, ",\"known\":%u,\"dcc\":[%u,%u]}", BV(d.known), d.known ? d.dcc_address.addrl : 0, d.known ? d.dcc_address.addrh : 0);
+	}
+	fputs("]", vout);
+	bidib_free_id_list_query(q);
+	fputc('}', vout);
+}
+
+/* aspects of accessories / peripherals: aspects <kind> <id> */
+static void proj_aspects(const char *kind, const char *id) {
+	fputc('{', vout);
+	if (!strcmp(kind, "point")) p_idlist("aspects", bidib_get_point_aspects(id));
+	else if (!strcmp(kind, "signal")) p_idlist("aspects", bidib_get_signal_aspects(id));
+	else p_idlist("aspects", bidib_get_peripheral_aspects(id));
+	fputc('}', vout);
+}
+
+/* single-entity getter by name; the result is printed with the same field names as the snapshot, then freed once */
+static const char *A(int n, char **tok, int i) {
+	if (i >= n || strcmp(tok[i], "~") == 0) return NULL;
+	if (strcmp(tok[i], "%e") == 0) return "";
+	return tok[i];
+}
+
+void proj_get(const char *fn, int n, char **tok) {
+	const char *a = A(n, tok, 0);
+	if (!strcmp(fn, "all")) { proj_all(); return; }
+	if (!strcmp(fn, "lists")) { proj_lists(); return; }
+	if (!strcmp(fn, "aspects")) { proj_aspects(a ? a : "", A(n, tok, 1)); return; }
+	fputc('{', vout);
+	if (!strcmp(fn, "bidib_get_point_state") || !strcmp(fn, "bidib_get_signal_state")) {
+		t_bidib_unified_accessory_state_query q = !strcmp(fn, "bidib_get_point_state") ? bidib_get_point_state(a) : bidib_get_signal_state(a);
+		fprintf(vout, "\"known\":%u,\"type\":%d,", BV(q.known), (int) q.type);
+		if (BV(q.known) && q.type == BIDIB_ACCESSORY_BOARD) p_board_acc(&q.board_accessory_state);
+		else if (BV(q.known)) p_dcc_acc(&q.dcc_accessory_state);
+		else { fputs("\"sidnull\":", vout); fputs(q.board_accessory_state.state_id == NULL ? "1" : "0", vout); }
+		bidib_free_unified_accessory_state_query(q);
+	} else if (!strcmp(fn, "bidib_get_peripheral_state")) {
+		t_bidib_peripheral_state_query q = bidib_get_peripheral_state(a);
+		fprintf(vout, "\"known\":%u,", BV(q.available));
+		if (BV(q.available)) p_periph(&q.data); else fprintf(vout, "\"sidnull\":%d", q.data.state_id == NULL);
+		bidib_free_peripheral_state_query(q);
+	} else if (!strcmp(fn, "bidib_get_segment_state")) {
+		t_bidib_segment_state_query q = bidib_get_segment_state(a);
+		fprintf(vout, "\"known\":%u,", BV(q.known));
+		if (BV(q.known)) p_segment(&q.data); else fprintf(vout, "\"sidnull\":%d", q.data.dcc_addresses == NULL);
+		bidib_free_segment_state_query(q);
+	} else if (!strcmp(fn, "bidib_get_reverser_state")) {
+		t_bidib_reverser_state_query q = bidib_get_reverser_state(a);
+		fprintf(vout, "\"known\":%u,", BV(q.available));
+		if (BV(q.available)) p_reverser(&q.data); else fprintf(vout, "\"sidnull\":%d", q.data.state_id == NULL);
+		bidib_free_reverser_state_query(q);
+	} else if (!strcmp(fn, "bidib_get_train_state")) {
+		t_bidib_train_state_query q = bidib_get_train_state(a);
+		fprintf(vout, "\"known\":%u,", BV(q.known));
+		if (BV(q.known)) p_train(&q.data); else fprintf(vout, "\"sidnull\":%d", q.data.peripherals == NULL);
+		bidib_free_train_state_query(q);
+	} else if (!strcmp(fn, "bidib_get_booster_state")) {
+		t_bidib_booster_state_query q = bidib_get_booster_state(a);
+		fprintf(vout, "\"known\":%u", BV(q.known));
+		if (BV(q.known)) { fputc(',', vout); p_booster(&q.data); }
+	} else if (!strcmp(fn, "bidib_get_track_output_state")) {
+		t_bidib_track_output_state_query q = bidib_get_track_output_state(a);
+		fprintf(vout, "\"known\":%u", BV(q.known));
+		if (BV(q.known)) fprintf(vout, ",\"cs\":%d", (int) q.cs_state);
+	} else if (!strcmp(fn, "bidib_get_train_peripheral_state")) {
+		t_bidib_train_peripheral_state_query q = bidib_get_train_peripheral_state(a, A(n, tok, 1));
+		fprintf(vout, "\"known\":%u,\"st\":%u", BV(q.available), q.state);
+	} else if (!strcmp(fn, "bidib_get_train_position")) {
+		t_bidib_train_position_query p = bidib_get_train_position(a);
+		fprintf(vout, "\"left\":%u,\"segs\":[", BV(p.orientation_is_left));
+		for (size_t j = 0; j < p.length; j++) { SEP(j); p_sid(p.segments[j]); }
+		fputs("]", vout);
+		bidib_free_train_position_query(p);
+	} else if (!strcmp(fn, "bidib_get_nodeaddr")) {
+		t_bidib_node_address_query q = bidib_get_nodeaddr(a);
+		fprintf(vout, "\"known\":%u", BV(q.known_and_connected));
+		if (BV(q.known_and_connected)) fprintf(vout, ",\"addr\":[%u,%u,%u]", q.address.top, q.address.sub, q.address.subsub);
+	} else if (!strcmp(fn, "bidib_get_uniqueid")) {
+		t_bidib_unique_id_query u = bidib_get_uniqueid(a);
+		fprintf(vout, "\"known\":%u", BV(u.known));
+	} else if (!strcmp(fn, "bidib_get_train_dcc_addr")) {
+		t_bidib_dcc_address_query d = bidib_get_train_dcc_addr(a);
+		fprintf(vout, "\"known\":%u", BV(d.known));
+		if (BV(d.known)) fprintf(vout, ",\"dcc\":[%u,%u,%u]", d.dcc_address.addrl, d.dcc_address.addrh, d.dcc_address.type);
+	} else if (!strcmp(fn, "bidib_get_board_connected")) {
+		fprintf(vout, "\"conn\":%u", (unsigned) bidib_get_board_connected(a));
+	} else if (!strcmp(fn, "bidib_get_train_on_track")) {
+		fprintf(vout, "\"on\":%u", (unsigned) bidib_get_train_on_track(a));
+	} else if (!strcmp(fn, "bidib_get_board_features")) {
+		t_bidib_board_features_query f = bidib_get_board_features(a);
+		fputs("\"features\":[", vout);
+		for (size_t j = 0; j < f.length; j++) fprintf(vout, "%s[%u,%u]", j ? "," : "", f.features[j].number, f.features[j].value);
+		fputs("]", vout);
+		bidib_free_board_features_query(f);
+	} else if (!strncmp(fn, "bidib_get_board_", 16) || !strcmp(fn, "bidib_get_train_peripherals") || strstr(fn, "_aspects")) {
+		t_bidib_id_list_query q = {0, NULL};
+		if (!strcmp(fn, "bidib_get_board_points")) q = bidib_get_board_points(a);
+		else if (!strcmp(fn, "bidib_get_board_signals")) q = bidib_get_board_signals(a);
+		else if (!strcmp(fn, "bidib_get_board_peripherals")) q = bidib_get_board_peripherals(a);
+		else if (!strcmp(fn, "bidib_get_board_segments")) q = bidib_get_board_segments(a);
+		else if (!strcmp(fn, "bidib_get_board_reversers")) q = bidib_get_board_reversers(a);
+		else if (!strcmp(fn, "bidib_get_train_peripherals")) q = bidib_get_train_peripherals(a);
+		else if (!strcmp(fn, "bidib_get_point_aspects")) q = bidib_get_point_aspects(a);
+		else if (!strcmp(fn, "bidib_get_signal_aspects")) q = bidib_get_signal_aspects(a);
+		else if (!strcmp(fn, "bidib_get_peripheral_aspects")) q = bidib_get_peripheral_aspects(a);
+		p_idlist("ids", q);
+	} else if (!strcmp(fn, "bidib_get_point_state_index") || !strcmp(fn, "bidib_get_signal_state_index") || !strcmp(fn, "bidib_get_segment_state_index")) {
+		long r = !strcmp(fn, "bidib_get_point_state_index") ? (long) bidib_get_point_state_index(a)
+		       : !strcmp(fn, "bidib_get_signal_state_index") ? (long) bidib_get_signal_state_index(a) : (long) bidib_get_segment_state_index(a);
+		fprintf(vout, "\"idx\":%ld", r);
+	} else {
+		fputs("\"err\":\"unknown getter\"", vout);
+	}
+	fputc('}', vout);
+}
